@@ -55,7 +55,7 @@ def _apply(form, inp, fn, efn, flat=False):
 
 def c_map_law(v: int, fail: bool, fcode: int, ecode: int, k: int, form: int) -> bool:
     """
-    pre: 0 <= fcode <= 2 and 0 <= ecode <= 3 and 0 <= form <= 1
+    pre: 0 <= fcode <= 2 and 0 <= ecode <= 4 and 0 <= form <= 1
     post: __return__
     """
     exc = E1("input")
@@ -76,6 +76,8 @@ def c_map_law(v: int, fail: bool, fcode: int, ecode: int, k: int, form: int) -> 
             raise new_e
         if ecode == 3:
             raise e
+        if ecode == 4:
+            return None  # a perfectly good value
         return 0 - k
 
     inp = _mk_input(fail, v, exc)
@@ -103,6 +105,8 @@ def c_map_law(v: int, fail: bool, fcode: int, ecode: int, k: int, form: int) -> 
         return False
     if ecode == 1:
         return out.exception() is None and out.result() == 0 - k
+    if ecode == 4:
+        return out.exception() is None and out.result() is None
     if ecode == 2:
         return out.exception() is new_e
     return out.exception() is exc and (form == 1 or _tb_has(exc.__traceback__, tb0))
@@ -148,7 +152,7 @@ def c_flat_map_law(v: int, fail: bool, inner: int, k: int, form: int) -> bool:
 
 def c_flat_map_error_fn(v: int, inner: int, k: int) -> bool:
     """
-    pre: 0 <= inner <= 2
+    pre: 0 <= inner <= 3
     post: __return__
     """
     exc = E1("input")
@@ -161,6 +165,8 @@ def c_flat_map_error_fn(v: int, inner: int, k: int) -> bool:
             return f_return(k)
         if inner == 1:
             return f_return_error(inner_exc)
+        if inner == 3:
+            return None  # not a future either
         return k  # not a future
 
     out = f_flat_map(f_return_error(exc), None, efn)
